@@ -31,7 +31,11 @@ fn main() {
     let mut src = RSrc::new(vals);
     let krate = args[1].clone();
     let name = args[2].clone();
+    std::panic::set_hook(Box::new(|_| {}));
     let res = std::panic::catch_unwind(std::panic::AssertUnwindSafe(|| dispatch(&krate, &name, &mut src)));
+    for n in &src.notes {
+        println!("REPLAY input: {}", n);
+    }
     match res {
         Err(e) => {
             let msg = if let Some(s) = e.downcast_ref::<&str>() {
